@@ -73,7 +73,7 @@ def sched_parts(pid: str, tier: str):
     elif pid == "C06":
         mons = ("C06",)
         mk("whole-run-N3-prio", Cfg(N=3, resources="tm", sym_prio=True, routes="dc", monitors=mons), base_req, 600)
-        mk("whole-run-N3-prio-selection", Cfg(N=3, resources="t", sym_prio=True, sym_seq=False, selection=True, monitors=mons), base_req, 600)
+        mk("whole-run-N3-prio-selection", Cfg(N=3, resources="t", sym_prio=True, sym_seq=False, selection=True, debug_leaf=True, monitors=mons), base_req + ["w_debug_in_subgraph"], 600)
         if not q:
             mk("whole-run-N3-prio-all-resources", Cfg(N=3, resources="tma", sym_prio=True, monitors=mons), base_req, 1500)
             mk("whole-run-N4-prio", Cfg(N=4, resources="tm", sym_prio=True, sym_seq=False, monitors=mons), base_req, 1500, 9)
@@ -96,6 +96,49 @@ def sched_parts(pid: str, tier: str):
     elif pid == "C17":
         mons = ("C17", "C01", "C03")
         mk("whole-run-N3-both-flavours", Cfg(N=3, resources="tma", flavours="sa", monitors=mons), base_req, 600)
+    return parts
+
+
+GRAPH_FUNCS = [
+    "tawazi._dag.digraph.DiGraphEx.from_exec_nodes", "tawazi._dag.digraph.DiGraphEx.assign_compound_priority",
+    "tawazi._dag.digraph.DiGraphEx.make_subgraph", "tawazi._dag.digraph.DiGraphEx.minimal_induced_subgraph",
+    "tawazi._dag.digraph.DiGraphEx.multiple_nodes_successors", "tawazi._dag.digraph.DiGraphEx.extend_graph_with_debug_nodes",
+    "tawazi._dag.digraph.DiGraphEx.include_debug_nodes", "tawazi._dag.digraph.DiGraphEx.root_nodes",
+    "tawazi._dag.dag.BaseDAG.alias_to_ids", "tawazi._dag.dag.BaseDAG.get_multiple_nodes_aliases", "tawazi._dag.dag.BaseDAG.config_from_dict",
+    "tawazi._dag.dag.BaseDAGExecution.__post_init__", "tawazi._dag.dag.DAGExecution.__call__", "tawazi._dag.dag.DAG.setup",
+    "tawazi.node.node.ExecNode._conf_to_values", "tawazi.node.node.LazyExecNode._validate_dependencies",
+    "tawazi._dag.helpers.async_execute", "tawazi._dag.helpers.get_return_values", "tawazi.node.uxn.UsageExecNode.result",
+]
+
+REAL_ENV_ASSUMPTIONS = [
+    "the real scheduler runs on the real ThreadPoolExecutor / event loop; nodes use the main-thread resource so results do not depend on thread timing",
+    "node functions are uninterpreted (terms f_label(args)), total and side-effect free; identifiers are concrete strings",
+    "CPython, z3, networkx are trusted",
+]
+
+
+def graph_parts(pid: str, tier: str):
+    from harness.graph import GCfg, run_c07, run_c12, run_c13
+    from harness.sched import Cfg, run_sched
+
+    P = functools.partial
+    q = tier == "quick"
+    parts = []
+    if pid == "C07":
+        parts.append(Part("table-N4-labelings", P(run_c07, GCfg(N=4, relabel=True, debug=False, selection=False, reconf=False)), {"N": 4, "labelings": 24, "priorities": "unbounded Int"}, 600, 5, ["w_diamond"], GRAPH_FUNCS))
+        parts.append(Part("table-N4-reconf-selection", P(run_c07, GCfg(N=4, relabel=False, debug=False)), {"N": 4, "priorities": "unbounded Int", "selection": "whole/target/exclude/root x node", "reconfiguration": "none, all nodes or one node"}, 600, 5, ["w_diamond", "w_reconfigured", "w_subgraph"], GRAPH_FUNCS))
+        parts.append(Part("table-N3-debug", P(run_c07, GCfg(N=3, relabel=False, debug=True)), {"N": 3, "debug": "one debug leaf, RUN_DEBUG_NODES on/off"}, 600, 5, ["w_debug_in_subgraph"], GRAPH_FUNCS))
+        parts.append(Part("order-mc1-N3", P(run_sched, Cfg(N=3, resources="t", sym_prio=True, sym_seq=False, routes="dc", mc_fixed=1, distinct_cp=True, monitors=("C06",))), {"N": 3, "max_concurrency": 1, "assumption": "compound priorities pairwise distinct"}, 600, 6, ["w_returned"], SCHED_FUNCS))
+        if not q:
+            parts.append(Part("table-N5", P(run_c07, GCfg(N=5, relabel=True, debug=False, selection=False)), {"N": 5, "labelings": 120}, 1500, 6, ["w_diamond"], GRAPH_FUNCS))
+    elif pid == "C12":
+        parts.append(Part("closure-N3", P(run_c12, GCfg(N=3)), {"N": 3, "R,X,T": "None, [], singletons, pairs, shared tag, unknown alias (T)", "alias forms": "reference / id / tag, tag clashing with an id"}, 600, 5, ["w_error_case", "w_proper_subgraph", "w_all_three"], GRAPH_FUNCS))
+        if not q:
+            parts.append(Part("closure-N3-setup", P(run_c12, GCfg(N=3, setup=True)), {"N": 3, "setup": "first node optionally a setup node, optionally already set up"}, 1500, 5, ["w_error_case"], GRAPH_FUNCS))
+    elif pid == "C13":
+        parts.append(Part("debug-N3", P(run_c13, GCfg(N=3, setup=True, activation=True)), {"N": 3, "debug placement": "every subset", "modes": "call, executor(target/exclude/root x node), setup"}, 600, 5, ["w_invalid_rejected", "w_debug_ran", "w_debug_with_selection", "w_debug_pulled_in"], GRAPH_FUNCS))
+        if not q:
+            parts.append(Part("debug-N4", P(run_c13, GCfg(N=4, setup=False)), {"N": 4}, 1500, 6, ["w_debug_ran"], GRAPH_FUNCS))
     return parts
 
 
@@ -128,6 +171,10 @@ def main(argv):
     if pid in ("C02", "C03", "C04", "C05", "C06", "C08", "C09", "C14", "C17"):
         parts = sched_parts(pid, tier)
         return run_check(pid, tier, LEVEL[pid], parts, ENV_ASSUMPTIONS, RULE)
+    if pid in ("C07", "C12", "C13"):
+        rule = ("paths of the symbolic execution of the real graph algebra on programs built through the public API: shape x labeling x selection x alias form x "
+                "debug placement are solver-chosen decisions, priorities and node values symbolic; distinct = distinct (shape, labeling, selection, placement)")
+        return run_check(pid, tier, "model_checking", graph_parts(pid, tier), REAL_ENV_ASSUMPTIONS, rule)
     print("HARNESS-ERROR unknown property %s" % pid)
     return 2
 
